@@ -174,6 +174,10 @@ def run(ctx):
             for a, b in zip(idx, idx[1:] + [len(ps)]):
                 seg = ps[a:b]
                 creqs.append({"op": "obj.load_ssc_chart", "params": seg}); cmetas.append(("ssc_chart", seg, case))
+            # a stand-alone chart text must begin with NOTEDATA (ValueError otherwise; StopIteration on no parameter at all)
+            if ps and ps[0][0].upper() != "NOTEDATA" and len(cmetas) < 4000 and rng.random() < .2:
+                seg = ps[:rng.randrange(0, 4)]
+                creqs.append({"op": "obj.load_ssc_chart", "params": seg}); cmetas.append(("ssc_chart", seg, case))
         cresp = ctx.lean.eval_sharded(creqs)
         from msdparser import MSDParameter
         for (kind, arg, case), m in zip(cmetas, cresp):
